@@ -150,3 +150,28 @@ def diff_states(a, b, tables):
     if len(a['mem']) != len(b['mem']):
         out.append(f'device count {len(a["mem"])} vs {len(b["mem"])}')
     return out[:16]
+
+
+def zl(v):
+    v = int(v)
+    return str(v) if v >= 0 else f'({v})'
+
+
+def coq_list(l):
+    return '[' + '; '.join(zl(x) for x in l) + ']'
+
+
+def coq_machine(st):
+    """Coq literal of type machine for a state description"""
+    sysl = '[' + '; '.join(coq_list(l) for l in st['sysl']) + ']'
+    ex = 'None' if st.get('executed') is None else f'(Some ({zl(st["executed"][0])}, {coq_list(st["executed"][1])}))'
+    mem = '[' + '; '.join(f'mk_device {zl(b)} {zl(e)} {coq_list(bs)}' for (b, e, bs) in st['mem']) + ']'
+    return (f'(mk_machine {coq_list(st["R"])} {coq_list(st["sys"])} {sysl} {coq_list(st["changed"])} '
+            f'{zl(st["opcode"])} {zl(st["opcode_len"])} {zl(st["run"])} {zl(st["wfe"])} {zl(st["wfi"])} {ex} {mem})')
+
+
+def coq_config(cfg, tables):
+    ints = cfg_ints(cfg, tables)
+    scal = ints[:len(CFG_SCALARS)]
+    resets = ints[len(CFG_SCALARS) + 1:]
+    return '(mk_config ' + ' '.join(zl(x) for x in scal) + ' ' + coq_list(resets) + ')'
